@@ -133,14 +133,13 @@ SetupRequestTransfer(ch) ==
                                                                                    PreEmptionVulnerability |-> [Value |-> 0]]]] >>]]] >>]]))
 SetupItem(ch, psi, nas) == [PDUSessionID |-> [Value |-> [n |-> psi]], PDUSessionNASPDU |-> [Value |-> nas], SNSSAI |-> SnssaiV,
                             PDUSessionResourceSetupRequestTransfer |-> SetupRequestTransfer(ch)]
-\* optional IEs a conformant AMF may add (TS 38.413 9.2.1.1): RAN Paging Priority before the list, UE aggregate maximum bit rate after it
+\* optional IE a conformant AMF may add (TS 38.413 9.2.1.1): RAN Paging Priority, which precedes the list (the UE aggregate maximum bit
+\* rate of later versions of the standard is not in the library's Release 15 type dictionary and is not used)
 PduSetupRequest(c, ch, psi, nas) ==
    NgapPdu(0, Proc.PDUSessionResourceSetup, 0, "PDUSessionResourceSetupRequest",
       IdIes(c)
       \o (IF "setupPaging" \in DOMAIN ch /\ ch.setupPaging THEN << IeR(83, 1, "RANPagingPriority", [Value |-> [n |-> 5]]) >> ELSE <<>>)
-      \o << IeR(74, 0, "PDUSessionResourceSetupListSUReq", [List |-> << SetupItem(ch, psi, nas) >>]) >>
-      \o (IF "setupUeAmbr" \in DOMAIN ch /\ ch.setupUeAmbr
-          THEN << IeR(110, 1, "UEAggregateMaximumBitRate", [UEAggregateMaximumBitRateDL |-> [Value |-> ch.ambrDl], UEAggregateMaximumBitRateUL |-> [Value |-> ch.ambrUl]]) >> ELSE <<>>))
+      \o << IeR(74, 0, "PDUSessionResourceSetupListSUReq", [List |-> << SetupItem(ch, psi, nas) >>]) >>)
 InitialContextSetupRequest(c, ch, nas, withSession) ==
    NgapPdu(0, Proc.InitialContextSetup, 0, "InitialContextSetupRequest",
       IdIes(c) \o << IeR(28, 0, "GUAMI", GuamiV) >> \o
